@@ -219,6 +219,8 @@ pub struct World {
     pub(crate) files: HashMap<PathBuf, Vec<u8>>,
     pub(crate) events: Vec<Event>,
     pub(crate) log_hash: u64,
+    pub(crate) shape_hash: u64,
+    pub(crate) keep_events: bool,
     pub(crate) sched_rng: Rng,
     pub(crate) conn_count_by_label: HashMap<String, u64>,
     pub(crate) cmd_handler: Option<Box<dyn Fn(&[String]) -> CmdOutcome + Send>>,
@@ -295,6 +297,15 @@ impl World {
             h = h.wrapping_mul(0x0000_0100_0000_01b3);
         }
         self.log_hash = h;
+        let mut sh = self.shape_hash;
+        for b in kind.as_bytes().iter().chain(id.to_le_bytes().iter()) {
+            sh ^= *b as u64;
+            sh = sh.wrapping_mul(0x0000_0100_0000_01b3);
+        }
+        self.shape_hash = sh;
+        if !self.keep_events {
+            return self.seq;
+        }
         self.events.push(Event {
             seq: self.seq,
             t_us,
@@ -353,6 +364,8 @@ pub fn start(cfg: Config) {
         files: HashMap::new(),
         events: Vec::new(),
         log_hash: 0xcbf2_9ce4_8422_2325,
+        shape_hash: 0xcbf2_9ce4_8422_2325,
+        keep_events: true,
         sched_rng: Rng::derive(seed, "sched"),
         conn_count_by_label: HashMap::new(),
         cmd_handler: None,
@@ -424,6 +437,12 @@ pub fn take_events() -> Vec<Event> {
 }
 pub fn log_hash() -> u64 {
     with(|w| w.log_hash)
+}
+pub fn shape_hash() -> u64 {
+    with(|w| w.shape_hash)
+}
+pub fn set_keep_events(on: bool) {
+    with(|w| w.keep_events = on)
 }
 pub fn log_event(kind: &'static str, id: u64, n: u64, s: String) -> u64 {
     with(|w| w.log(kind, id, n, s))
